@@ -815,7 +815,7 @@ CHECKS = {
         ("math", MathPart("float,double", ["--placement"])),
     ], "every (subject operand tuple, lane position k, companion class) triple is executed next to the broadcast batch of the same subject: for the exact operations lane k must be bit-identical to lane 0 of the broadcast result and all broadcast lanes identical; for the elementary functions lane k must stay in the same special-value class as the broadcast result and within the function's accuracy bound; states = triples; transitions = lane comparisons", {
         "quick": "exact: every element-wise operation of C01/C02/C03/C06/C07/C08 (about 960 operation/type instances), subject tuples from a 13-symbol boundary alphabet per operand (64 / 8^2 / 5^3 tuples), every lane, companions = each alphabet symbol in all other lanes + a rotation of all symbols; elementary functions: about 500 subject values (switch-point windows, specials, binade edges, gamma poles) x every lane x 32 companion classes chosen on both sides of every any()/all() threshold plus NaN/inf/huge/tiny; all 22 architectures",
-        "thorough": "same spaces (complete for their definition)"}),
+        "thorough": "exact: the full 13^2 / 8^3 subject products; elementary functions: about 6000 subject values (+-8-ulp switch-point windows, every float binade / every 8th double binade, k/2 up to 180); otherwise as quick"}),
     "C14": MathCheck("float,double", RULE_MATH + "; for C14 the judged quantity is the number of iterations of the data-dependent loops of one call (hook XSIMD_VERIF_LOOP_TICK) against the frozen constants of DESIGN.md 8.3, a call is aborted and reported after 1000 iterations, and a watchdog reports any kernel call that does not return within 30 s", {
         "quick": "the C10 and C11 quick argument spaces of every elementary function, both stream orders (so that lanes of very different magnitude share a batch), all 22 architectures",
         "thorough": "the quick spaces on all 22 architectures in both stream orders, plus all 2^32 float32 arguments of every unary function on the 9 kernel-distinct architectures (see C10; both stream orders for the functions that contain hooked loops, lgamma and tgamma), and the C11 thorough lattice"}, extra_args=["--ticks"]),
@@ -830,7 +830,7 @@ CHECKS = {
     "C20": GeometryCheck(),
     "C16": MathCheck("float,double", "every operand tuple of the log-polar grid is executed by every architecture's complex kernel (operands travel as separate real/imaginary arrays) and each component is compared with std::complex<long double> / the textbook formula within the property's tolerance; premises (finite operands, no intermediate overflow, |Re|,|Im| <= 20 for tan/tanh) are applied as filters; states = operand tuples; transitions = lane results judged", {
         "quick": "moduli 2^k, k in [-40,40] step 2 (float) / [-300,300] step 12 (double) x 64 arguments, the four axes with both signs of the zero part, +-1 ulp off each axis, moderate box points, 64 seed points; binary operations on a thinned grid^2 (about 225 000 pairs), fused forms on a small grid^3 (about 250 000 triples), pow with 11 real exponents, polar over 129 angles; all 22 architectures",
-        "thorough": "same grid (complete for its definition)"}, extra_args=["--complex"]),
+        "thorough": "denser grids: every float binade / every 4th double binade x 256 arguments (+ axes, +-1 ulp off the axes, 256 seed points) for the unary functions, a 4x denser modulus ladder x 32 arguments squared for the binary ones, a 2.5x denser ladder x 8 arguments cubed for the fused forms"}, extra_args=["--complex"]),
     "C17": Composite([
         ("exact", DrivePart(["scalar"], [], deadline=(600, 7200))),
         ("elementary", MathPart("float,double", ["--scalar"], full_archs=["sse2", "fma3_avx2", "avx512vnni_avx512vbmi2"])),
